@@ -80,10 +80,11 @@ def voronoi(n, seed):
 
     rng = _rng(seed, n, 11)
     # resample until every cell stays within ~78 deg of its generator (no near-hemisphere cells)
-    for _try in range(2000):
+    # (very few generators are rarely that well spread: after 2000 draws the bound is relaxed to ~87 deg - still inside a hemisphere)
+    for _try in range(6000):
         pts = _safe_points(rng, n)
         sv = SphericalVoronoi(pts, radius=1.0, center=np.zeros(3))
-        if all(np.min(ref.unit(sv.vertices[r]) @ pts[i]) > 0.2 for i, r in enumerate(sv.regions)):
+        if all(np.min(ref.unit(sv.vertices[r]) @ pts[i]) > (0.2 if _try < 2000 else 0.05) for i, r in enumerate(sv.regions)):
             break
     else:
         raise RuntimeError("no well-spread generator set found")
